@@ -27,6 +27,18 @@
 #endif
 #define LEN1 (LEN > 0 ? LEN : 1)
 
+/* Leaf operation of the oracle.  -DORACLE_SPEC: the 8-step shift/xor specification directly (decides
+ * only for a single product per byte: XOR-sums of table-driven products against XOR-sums of
+ * polynomial products are an XOR miter the SAT solver cannot close -- measured >300 s at len 2, k 2).
+ * Default: the library's scalar gf_mul, which property C12 decides to be equal to spec_gf_mul for ALL
+ * 2^16 operand pairs (lemma C12:H_MUL); the oracle passes (coefficient, data) in the opposite order
+ * from the code under test. */
+#ifdef ORACLE_SPEC
+#define MUL(c, d) spec_gf_mul(c, d)
+#else
+#define MUL(c, d) gf_mul(c, d)
+#endif
+
 struct inputs {
         uint8_t coef[ROWS * KK];
         uint8_t data[KK][LEN1];
@@ -60,7 +72,7 @@ harness(void)
         for (int i = 0; i < LEN; i++) {
                 uint8_t s = 0;
                 for (int j = 0; j < KK; j++)
-                        s ^= spec_gf_mul(I.coef[j], I.data[j][i]);
+                        s ^= MUL(I.coef[j], I.data[j][i]);
                 VASSERT(dst[0][i] == s, "dest[i] == sum_j c_j * src_j[i]");
         }
 #elif defined(H_ENC)
@@ -69,21 +81,21 @@ harness(void)
                 for (int i = 0; i < LEN; i++) {
                         uint8_t s = 0;
                         for (int j = 0; j < KK; j++)
-                                s ^= spec_gf_mul(I.coef[r * KK + j], I.data[j][i]);
+                                s ^= MUL(I.coef[r * KK + j], I.data[j][i]);
                         VASSERT(dst[r][i] == s, "coding[r][i] == sum_j c[r][j] * data_j[i]");
                 }
 #elif defined(H_MAD)
         VASSUME(I.vec_i < KK);
         gf_vect_mad_base(LEN, KK, I.vec_i, tbl, src[0], dst[0]);
         for (int i = 0; i < LEN; i++)
-                VASSERT(dst[0][i] == (I.old[0][i] ^ spec_gf_mul(I.coef[I.vec_i], I.data[0][i])),
+                VASSERT(dst[0][i] == (I.old[0][i] ^ MUL(I.coef[I.vec_i], I.data[0][i])),
                         "dest[i] == old[i] ^ c[vec_i]*src[i]");
 #elif defined(H_UPD)
         VASSUME(I.vec_i < KK);
         ec_encode_data_update_base(LEN, KK, ROWS, I.vec_i, tbl, src[0], dstp);
         for (int r = 0; r < ROWS; r++)
                 for (int i = 0; i < LEN; i++)
-                        VASSERT(dst[r][i] == (I.old[r][i] ^ spec_gf_mul(I.coef[r * KK + I.vec_i], I.data[0][i])),
+                        VASSERT(dst[r][i] == (I.old[r][i] ^ MUL(I.coef[r * KK + I.vec_i], I.data[0][i])),
                                 "coding[r][i] == old ^ c[r][vec_i]*data[i]");
 #elif defined(H_MUL)
         /* KK == ROWS == 1; table of coef[0] */
@@ -95,7 +107,7 @@ harness(void)
         } else {
                 VASSERT(ret == 0, "len multiple of 32: returns 0");
                 for (int i = 0; i < LEN; i++)
-                        VASSERT(dst[0][i] == spec_gf_mul(I.coef[0], I.data[0][i]), "dest[i] == c*src[i]");
+                        VASSERT(dst[0][i] == MUL(I.coef[0], I.data[0][i]), "dest[i] == c*src[i]");
         }
 #elif defined(H_ORDER)
         /* order[] is a permutation of 0..KK-1 */
